@@ -149,6 +149,17 @@ pub fn c10(o: &Opts) -> Outcome {
             }
         }
     }
+    // records with thousands of runs each (lines far longer than any buffer or chunk of fields) and several workers
+    {
+        let recs: Vec<Vec<u8>> = (0..24).map(|_| printable(random_seq(&mut rng, 30_000, 1))).collect();
+        for threads in [1usize, 8] {
+            cases += recs.len() as u64;
+            if let Some(mut wt) = c10_one(&recs, 12, 7, threads) {
+                for kv in wt.iter_mut() { if kv.0 == "records" { kv.1 = format!("<24 random records of 30000 bases, seed {}>", o.seed); } }
+                return Outcome { cases, witness: Some(wt) };
+            }
+        }
+    }
     // two records with the same identifier and the same bases (a duplicated read): every run is listed twice, in both outputs
     {
         let base: Vec<Vec<u8>> = vec![b"ACGTTGCATTGACC".to_vec(), b"ACGTTGCATTGACC".to_vec(), b"GGATCGGATC".to_vec(), b"GGATCGGATCA".to_vec(), b"TTGACCA".to_vec(), b"TTGACCA".to_vec()];
